@@ -15,34 +15,81 @@ namespace Locks
 
 inductive Mode | r | w deriving DecidableEq, Repr
 
-inductive Act | acq (l : Nat) (m : Mode) | rel (l : Nat) deriving DecidableEq, Repr
+/-- `wait ts`: the task awaits the completion of the tasks with indices `ts` (join handles, a channel it
+drains until every child has reported, …) — it can only continue when all of them have finished. -/
+inductive Act | acq (l : Nat) (m : Mode) | rel (l : Nat) | wait (ts : List Nat) deriving DecidableEq, Repr
 
 abbrev Prog := List Act
 
 /-- static discipline: every acquire is strictly above everything currently held (one global order
 on lock *objects*, so read-then-write of one lock and re-acquisition are rejected); releases are of
-held locks; nothing is held at the end. `held` is the list of locks held so far. -/
-def Disciplined : List Nat → Prog → Prop
+held locks; nothing is held at the end; and a task that **waits for other tasks while holding locks** may
+only do so if every lock those tasks may still need (`need k`, closed under their own waits, see `WF`) is
+strictly above everything it holds — as if the awaited tasks ran inside the waiter. `held` is the list of
+locks held so far. -/
+def Disciplined (need : Nat → List Nat) : List Nat → Prog → Prop
   | held, [] => held = []
-  | held, .acq l _ :: rest => (∀ h ∈ held, h < l) ∧ Disciplined (l :: held) rest
-  | held, .rel l :: rest => l ∈ held ∧ Disciplined (held.erase l) rest
+  | held, .acq l _ :: rest => (∀ h ∈ held, h < l) ∧ Disciplined need (l :: held) rest
+  | held, .rel l :: rest => l ∈ held ∧ Disciplined need (held.erase l) rest
+  | held, .wait ts :: rest => (∀ k ∈ ts, ∀ l ∈ need k, ∀ h ∈ held, h < l) ∧ Disciplined need held rest
 
 /-- executable version of `Disciplined` -/
-def discB : List Nat → Prog → Bool
+def discB (need : Nat → List Nat) : List Nat → Prog → Bool
   | held, [] => held.isEmpty
-  | held, .acq l _ :: rest => held.all (fun h => decide (h < l)) && discB (l :: held) rest
-  | held, .rel l :: rest => held.contains l && discB (held.erase l) rest
+  | held, .acq l _ :: rest => held.all (fun h => decide (h < l)) && discB need (l :: held) rest
+  | held, .rel l :: rest => held.contains l && discB need (held.erase l) rest
+  | held, .wait ts :: rest =>
+      ts.all (fun k => (need k).all (fun l => held.all (fun h => decide (h < l)))) && discB need held rest
 
-theorem discB_iff (held : List Nat) (p : Prog) : discB held p = true ↔ Disciplined held p := by
+theorem discB_iff (need : Nat → List Nat) (held : List Nat) (p : Prog) :
+    discB need held p = true ↔ Disciplined need held p := by
   induction p generalizing held with
   | nil => simp [discB, Disciplined]
   | cons a rest ih =>
     cases a with
     | acq l m => simp [discB, Disciplined, ih]
     | rel l => simp [discB, Disciplined, ih]
+    | wait ts => simp [discB, Disciplined, ih]
 
-instance (held : List Nat) (p : Prog) : Decidable (Disciplined held p) :=
-  decidable_of_iff _ (discB_iff held p)
+instance (need : Nat → List Nat) (held : List Nat) (p : Prog) : Decidable (Disciplined need held p) :=
+  decidable_of_iff _ (discB_iff need held p)
+
+/-- one action respects the `need` table of task `j`: its acquisitions are listed; it only waits for tasks
+spawned later (`j < k`: the wait-for graph is acyclic) and inherits their needs -/
+def actWF (need : Nat → List Nat) (j : Nat) : Act → Bool
+  | .acq l _ => (need j).contains l
+  | .rel _ => true
+  | .wait ts => ts.all (fun k => decide (j < k) && (need k).all (fun l => (need j).contains l))
+
+/-- `need` over-approximates, for every task, the locks it may request itself or through the tasks it waits for -/
+def WF (need : Nat → List Nat) (ps : List Prog) : Prop :=
+  ∀ (j : Nat) (p : Prog), ps[j]? = some p → ∀ a ∈ p, actWF need j a = true
+
+def wfB (need : Nat → List Nat) (ps : List Prog) : Bool :=
+  (List.range ps.length).all (fun j => match ps[j]? with
+    | some p => p.all (actWF need j)
+    | none => true)
+
+/-- the locks a program acquires -/
+def acqLocks (p : Prog) : List Nat := p.filterMap (fun a => match a with | .acq l _ => some l | _ => none)
+
+/-- the tasks a program waits for -/
+def waitTargets (p : Prog) : List Nat := p.flatMap (fun a => match a with | .wait ts => ts | _ => [])
+
+/-- the locks task `j` may request itself or through the tasks it waits for (`fuel` rounds of unfolding; with
+forward waits `ps.length` rounds reach the fixed point; `wfB` checks the result) -/
+def needAux (ps : List Prog) : Nat → Nat → List Nat
+  | 0, j => acqLocks (ps.getD j [])
+  | f + 1, j => acqLocks (ps.getD j []) ++ (waitTargets (ps.getD j [])).flatMap (needAux ps f)
+
+def needOf (ps : List Prog) : Nat → List Nat := needAux ps ps.length
+
+/-- the coarsest table: every task may need every lock any program acquires -/
+def allNeed (ps : List Prog) : Nat → List Nat := fun _ => ps.flatMap acqLocks
+
+/-- a program without `wait` actions -/
+def waitFree (p : Prog) : Bool := p.all (fun a => match a with | .wait _ => false | _ => true)
+
 
 /-- dynamic state of one task -/
 structure Task where
@@ -63,12 +110,19 @@ def compatible (holders : List (Nat × Mode)) : Mode → Bool
   | .w => holders.isEmpty
   | .r => holders.all (fun h => h.2 == .r)
 
-/-- A task can take a step on its own (request or release) -/
-def selfEnabled (t : Task) : Bool :=
+/-- task `k` has finished (an index outside the task list counts as finished) -/
+def taskDone (ts : List Task) (k : Nat) : Bool :=
+  match ts[k]? with
+  | some t => t.rest.isEmpty
+  | none => true
+
+/-- A task can take a step on its own (request, release, or a wait whose tasks have all finished) -/
+def selfEnabled (all : List Task) (t : Task) : Bool :=
   match t.rest with
   | [] => false
   | .rel _ :: _ => true
   | .acq _ _ :: _ => !t.waiting
+  | .wait ts :: _ => ts.all (taskDone all)
 
 /-- lock `l` can grant its queue head -/
 def grantEnabled (s : St) (l : Nat) : Bool :=
@@ -90,7 +144,7 @@ def setLock (f : Nat → LockSt) (l : Nat) (v : LockSt) : Nat → LockSt :=
 
 /-- scheduler choices: task `i` enqueues its pending acquire; lock `l` grants its queue head;
 task `i` executes its pending release. -/
-inductive Label | req (i : Nat) | grant (l : Nat) | rel (i : Nat) deriving DecidableEq, Repr
+inductive Label | req (i : Nat) | grant (l : Nat) | rel (i : Nat) | wait (i : Nat) deriving DecidableEq, Repr
 
 /-- one atomic step; `none` = the label is not enabled in `s`. -/
 def exec (s : St) : Label → Option St
@@ -129,6 +183,16 @@ def exec (s : St) : Label → Option St
                locks := setLock s.locks l
                  { holders := (s.locks l).holders.filter (fun h => h.1 != i),
                    queue := (s.locks l).queue } }
+      | _ => none
+    | none => none
+  | .wait i =>
+    match s.tasks[i]? with
+    | some t =>
+      match t.rest with
+      | .wait ts :: rest' =>
+        if ts.all (taskDone s.tasks) then
+          some { tasks := s.tasks.set i { rest := rest', held := t.held, waiting := t.waiting }, locks := s.locks }
+        else none
       | _ => none
     | none => none
 
@@ -181,6 +245,7 @@ def Conforms (sites : List Site) : List Nat → Prog → Prop
   | held, .acq l m :: rest =>
       (∃ s ∈ sites, s.lock = l ∧ s.mode = m ∧ ∀ h ∈ held, h ∈ s.held) ∧ Conforms sites (l :: held) rest
   | held, .rel l :: rest => l ∈ held ∧ Conforms sites (held.erase l) rest
+  | held, .wait _ :: rest => held = [] ∧ Conforms sites held rest   -- never wait for a task under a lock
 
 def conformsB (sites : List Site) : List Nat → Prog → Bool
   | held, [] => held.isEmpty
@@ -188,12 +253,44 @@ def conformsB (sites : List Site) : List Nat → Prog → Bool
       sites.any (fun s => s.lock == l && s.mode == m && held.all (fun h => s.held.contains h))
         && conformsB sites (l :: held) rest
   | held, .rel l :: rest => held.contains l && conformsB sites (held.erase l) rest
+  | held, .wait _ :: rest => held.isEmpty && conformsB sites held rest
+
+/-! ## Extracted non-lock awaits inside guard scopes (T-src) -/
+
+inductive AwaitKind
+  | channelRecv      -- drains a channel fed by spawned children
+  | channelSend      -- bounded channel send (waits for the receiver)
+  | join             -- join handle / join_all
+  | clientResponse   -- waits for the client to answer a server→client request
+  | cancel           -- waits for a cancellation token
+  | timer            -- sleep / yield
+  | other            -- anything the extractor cannot classify
+  deriving DecidableEq, Repr
+
+/-- One `.await` (or `select!`) that is not a lock acquisition, with the locks that may be held there, the locks
+the awaited party may still request before the awaited event happens (`needs`), and whether the wait ends after
+a fixed time whatever the other tasks do (`bounded`: sleep, timeout token). -/
+structure AwaitSite where
+  fn : String
+  file : String
+  line : Nat
+  kind : AwaitKind
+  held : List Nat
+  needs : List Nat
+  bounded : Bool
+  deriving Repr
+
+/-- allowed: nothing is held, or the wait is time-bounded, or everything the awaited party may still request
+is strictly above everything held (the `wait` clause of `Disciplined`) -/
+def AwaitSite.allowed (a : AwaitSite) : Bool :=
+  a.held.isEmpty || a.bounded || a.needs.all (fun l => a.held.all (fun h => decide (h < l)))
 
 /-! ## Exhaustive schedule exploration (search only; used by the driver and `decide`d witnesses) -/
 
 /-- all labels that could possibly be enabled for `n` tasks and locks `< nl` -/
 def allLabels (n nl : Nat) : List Label :=
-  (List.range n).map Label.req ++ (List.range nl).map Label.grant ++ (List.range n).map Label.rel
+  (List.range n).map Label.req ++ (List.range nl).map Label.grant ++ (List.range n).map Label.rel ++
+    (List.range n).map Label.wait
 
 /-- canonical key of a state over locks `< nl` (for the visited set) -/
 def key (s : St) (nl : Nat) : List Nat :=
@@ -222,9 +319,14 @@ def dfs (nl : Nat) : Nat → List (St × List Label) → List (List Nat) → Exc
 
 /-! ## Mode-ranked orders (the style of the comment in `context/mod.rs` before the fix) -/
 
-def Act.lock : Act → Nat
-  | .acq l _ => l
-  | .rel l => l
+/-- the action only mentions locks `< nl` -/
+def Act.below (nl : Nat) : Act → Prop
+  | .acq l _ => l < nl
+  | .rel l => l < nl
+  | .wait _ => True
+
+instance (nl : Nat) (a : Act) : Decidable (a.below nl) := by
+  cases a <;> simp only [Act.below] <;> infer_instance
 
 /-- discipline w.r.t. a rank on (lock, mode) pairs: every acquire is strictly above every (lock, mode)
 currently held. `held` = list of (lock, mode). -/
@@ -234,6 +336,7 @@ def modeDiscB (rank : Nat → Mode → Nat) : List (Nat × Mode) → Prog → Bo
       held.all (fun h => decide (rank h.1 h.2 < rank l m)) && modeDiscB rank ((l, m) :: held) rest
   | held, .rel l :: rest =>
       held.any (fun h => h.1 == l) && modeDiscB rank (held.filter (fun h => h.1 != l)) rest
+  | held, .wait _ :: rest => modeDiscB rank held rest
 
 def findDeadlock (ps : List Prog) (nl fuel : Nat) : Except String (Option (List Label) × Nat) :=
   dfs nl fuel [(init ps, [])] []
